@@ -1443,4 +1443,6 @@ def _search_match(key: str, m) -> bool:
         return table[k[2:]] not in m.flags
     if k.startswith("KEYWORD "):
         return key.split()[1] in m.flags
+    if k.startswith("UNKEYWORD "):
+        return key.split()[1] not in m.flags
     raise ValueError(key)
